@@ -36,10 +36,10 @@ class Prop:
 
 
 PROPS = {}
-# pkg -> [(source file under src/, harness file in harness/<pkg>/)]: the harness file becomes a
+# pkg -> [(source file under src/, harness file in harness/<pkg>/, cfg predicate)]: the harness file becomes a
 # child module of that source file's module (private fields reachable)
 INJECT = {
-    "tower-resilience-retry": [("budget.rs", "in_budget.rs")],
+    "tower-resilience-retry": [("budget.rs", "in_budget.rs", 'all(kani, feature = "verif-hooks")')],
 }
 
 RETRY = "tower-resilience-retry"
